@@ -1,238 +1,198 @@
-import GoatProofs.Lemmas.C16PtFormulas
-import Goat.Model.Ed448Pt
+import GoatProofs.Lemmas.C16PtDec
+import GoatProofs.Group
 /-
 C16 (points part) — edwards448 points implement the Ed448-Goldilocks group.
+
+Lemma files: `Lemmas/C16PtField` (ZMod bridge, d non-square by Euler's criterion in the kernel,
+completeness of the Edwards law), `Lemmas/C16PtFormulas` (projective formulas as field identities),
+`Lemmas/C16PtOps` (`PRep`, add/double/negate/sub), `Lemmas/C16PtEnc` (Select, CondNeg, lookup
+select, Equal, Bytes), `Lemmas/C16PtDec` (SetBytes: strict, complete, round trips).
+
+This file: the decoded constants, the `Respects` instance for `Model.WindowMul`, and the three
+scalar multiplications.  The GROUP structure of the curve (associativity of the textbook law) is not
+proved here and not in Mathlib: it is the explicit hypothesis `EdwardsGroup`; the theorems that need
+it are marked `partial` in C16P.theorems.  Nothing in the Lemmas files uses it.
+
+Hypotheses kept: `Nat.Prime q` (q = 2^448 − 2^224 − 1) and `EdwardsGroup`.
 -/
 namespace C16Pt
-open C17 (Inv Rep Cong)
-open Model.Fe448 Model.Ed448Pt Spec.Edwards448
+open C17 (Rep Cong)
+open Model.Fe448 Model.Ed448Pt Spec.Edwards448 Glue Model.WindowMul Model.Recode
 set_option exponentiation.threshold 1000
 set_option maxRecDepth 100000
 
-abbrev AffinePoint := Spec.Edwards448.Point
+/-! ## the decoded package constants -/
 
-/-- `PRep P a`: the limb triple `P` (every coordinate inside the C17 representation invariant, Z ≢ 0)
-    represents the affine point `a`: X ≡ a.x·Z, Y ≡ a.y·Z (mod p).  Division-free. -/
-structure PRep (P : Model.Ed448Pt.Point) (a : AffinePoint) : Prop where
-  ix : Inv P.x
-  iy : Inv P.y
-  iz : Inv P.z
-  z_ne : ¬ Cong (eval P.z) 0
-  hx : Cong (eval P.x) (a.x * eval P.z)
-  hy : Cong (eval P.y) (a.y * eval P.z)
+theorem identityBytes_eq : Gen.Ed448Pt.identityBytes = intsOf (Spec.RFC8032.encodePoint Spec.Edwards448.zero) := by
+  decide +kernel
+theorem generatorBytes_eq : Gen.Ed448Pt.generatorBytes = intsOf (Spec.RFC8032.encodePoint Spec.Edwards448.B) := by
+  decide +kernel
+theorem B_onCurve : OnCurve Spec.Edwards448.B := by decide +kernel
 
-/-! ## constants -/
+theorem thunk_get_mk {α : Type} (f : Unit → α) : (Thunk.mk f).get = f () := rfl
+theorem identityT_def : identityT = Thunk.mk fun _ => okOrNil (Model.Ed448Pt.setBytes Gen.Ed448Pt.identityBytes) := rfl
+theorem generatorT_def : generatorT = Thunk.mk fun _ => okOrNil (Model.Ed448Pt.setBytes Gen.Ed448Pt.generatorBytes) := rfl
+theorem basepointTblT_def : basepointTblT = Thunk.mk fun _ => basepointTable Model.Ed448Pt.ops 56 (newGenerator ()) := rfl
+theorem basepointNAFTblT_def : basepointNAFTblT = Thunk.mk fun _ => nafTable8 Model.Ed448Pt.ops (newGenerator ()) := rfl
+theorem identityT_get : identityT.get = okOrNil (Model.Ed448Pt.setBytes Gen.Ed448Pt.identityBytes) := by
+  rw [identityT_def, thunk_get_mk]
+theorem generatorT_get : generatorT.get = okOrNil (Model.Ed448Pt.setBytes Gen.Ed448Pt.generatorBytes) := by
+  rw [generatorT_def, thunk_get_mk]
+theorem basepointTblT_get : basepointTblT.get = basepointTable Model.Ed448Pt.ops 56 (newGenerator ()) := by
+  rw [basepointTblT_def, thunk_get_mk]
+theorem basepointNAFTblT_get : basepointNAFTblT.get = nafTable8 Model.Ed448Pt.ops (newGenerator ()) := by
+  rw [basepointNAFTblT_def, thunk_get_mk]
+theorem newIdentity_eq : newIdentity () = identityT.get := by
+  unfold newIdentity; exact Eq.refl _
+theorem newGenerator_eq : newGenerator () = generatorT.get := by
+  unfold newGenerator; exact Eq.refl _
 
-theorem one_rep : Rep Model.Fe448Ext.one 1 :=
-  ⟨⟨rfl, by unfold Glue.AllIn; decide +kernel⟩, by unfold Cong; decide +kernel⟩
-theorem zero_rep : Rep Model.Fe448Ext.zero 0 :=
-  ⟨⟨rfl, by unfold Glue.AllIn; decide +kernel⟩, by unfold Cong; decide +kernel⟩
+/-- `identity` (decoded from its byte literal at package initialisation) represents (0, 1) -/
+theorem identity_correct (hp : Nat.Prime q) : PRep identityT.get Spec.Edwards448.zero := by
+  obtain ⟨Pt, hok, hrep⟩ := setBytes_complete hp zero_onCurve
+  rw [← identityBytes_eq] at hok
+  rw [identityT_get, hok]; exact hrep
 
-/-- the constant `feD` of edwards448.go (regenerated byte literal) represents d = −39081 -/
-theorem feD_rep : Rep feD d := by
-  have h := C17.setBytes_rep Gen.Ed448Pt.feDBytes (by decide) (by unfold Glue.AllIn; decide +kernel)
-  refine ⟨h.1, C17.Cong.trans h.2 ?_⟩
-  unfold Cong; decide +kernel
+/-- `generator` represents the base point B of RFC 8032 -/
+theorem generator_correct (hp : Nat.Prime q) : PRep generatorT.get Spec.Edwards448.B := by
+  obtain ⟨Pt, hok, hrep⟩ := setBytes_complete hp B_onCurve
+  rw [← generatorBytes_eq] at hok
+  rw [generatorT_get, hok]; exact hrep
 
-/-! ## bridging integers and the field -/
+/-! ## the group hypothesis -/
 
-theorem finv_cast (hp : Nat.Prime q) (u : ℤ) : ((finv u : ℤ) : F) = ((u : ℤ) : F)⁻¹ := by
-  have : Fact (Nat.Prime q) := ⟨hp⟩
-  unfold finv
-  rw [fpow_cast u _ (by decide +kernel)]
-  by_cases h0 : (u : F) = 0
-  · rw [h0, inv_zero, zero_pow (by decide +kernel)]
-  · apply eq_inv_of_mul_eq_one_left
-    rw [← pow_succ, show 2 ^ 448 - 2 ^ 224 - 3 + 1 = q - 1 by decide +kernel]
-    exact ZMod.pow_card_sub_one_eq_one h0
+/-- points of the curve -/
+def CurvePoint : Type := {a : AffinePoint // OnCurve a}
 
-theorem onCurve_F {a : AffinePoint} (h : OnCurve a) :
-    (a.x : F) ^ 2 + (a.y : F) ^ 2 = 1 + ((d : ℤ) : F) * (a.x : F) ^ 2 * (a.y : F) ^ 2 := by
-  have := (emod_eq_iff _ _).mp h.2.2
-  push_cast at this
-  linear_combination this
+/-- HYPOTHESIS (not proved, not in Mathlib): the textbook operations make the curve points a
+    commutative group.  The only non-trivial content is associativity (and closure) of the
+    addition law. -/
+structure EdwardsGroup where
+  inst : AddCommGroup CurvePoint
+  add_val : ∀ a b : CurvePoint, (a + b).val = Spec.Edwards448.add a.val b.val
+  zero_val : (0 : CurvePoint).val = Spec.Edwards448.zero
+  neg_val : ∀ a : CurvePoint, (-a).val = Spec.Edwards448.neg a.val
 
-theorem not_cong_zero_iff (x : ℤ) : ¬ Cong x 0 ↔ (x : F) ≠ 0 := by
-  rw [cong_iff]; simp
+/-- the carrier, as a type carrying the group instance of `E` -/
+def EdwardsGroup.G (_ : EdwardsGroup) : Type := CurvePoint
+instance (E : EdwardsGroup) : AddCommGroup E.G := E.inst
+def EdwardsGroup.val {E : EdwardsGroup} (g : E.G) : AffinePoint := Subtype.val (p := OnCurve) g
+theorem EdwardsGroup.on {E : EdwardsGroup} (g : E.G) : OnCurve (EdwardsGroup.val g) := Subtype.property (p := OnCurve) g
+def EdwardsGroup.mk' (E : EdwardsGroup) (a : AffinePoint) (h : OnCurve a) : E.G := (⟨a, h⟩ : CurvePoint)
 
-/-- coordinates of the textbook sum, in the field -/
-theorem add_x_F (hp : Nat.Prime q) (a b : AffinePoint) :
-    (((Spec.Edwards448.add a b).x : ℤ) : F) =
-      ((a.x : F) * b.y + a.y * b.x) * (1 + ((d : ℤ) : F) * a.x * b.x * a.y * b.y)⁻¹ := by
-  unfold Spec.Edwards448.add
-  simp only [cast_emod_p, Int.cast_mul, finv_cast hp]
-  push_cast; ring
-theorem add_y_F (hp : Nat.Prime q) (a b : AffinePoint) :
-    (((Spec.Edwards448.add a b).y : ℤ) : F) =
-      ((a.y : F) * b.y - a.x * b.x) * (1 - ((d : ℤ) : F) * a.x * b.x * a.y * b.y)⁻¹ := by
-  unfold Spec.Edwards448.add
-  simp only [cast_emod_p, Int.cast_mul, finv_cast hp]
-  push_cast; ring
+variable (E : EdwardsGroup)
 
-/-! ## addition, doubling, negation, subtraction -/
+/-- representation of group elements by limb triples -/
+def GRep (P : Model.Ed448Pt.Point) (g : E.G) : Prop := PRep P (EdwardsGroup.val g)
 
-/-- `Point.Add` returns a representative of the textbook sum — for ALL pairs of curve points
-    (P = Q, P = −Q, the identity, points of order 2 and 4 included: the law is complete because d is
-    a non-square).  Hypothesis: p is prime. -/
-theorem add_correct (hp : Nat.Prime q) {P Q : Model.Ed448Pt.Point} {a b : AffinePoint}
-    (hP : PRep P a) (hQ : PRep Q b) (ha : OnCurve a) (hb : OnCurve b) :
-    PRep (Model.Ed448Pt.add P Q) (Spec.Edwards448.add a b) := by
-  have : Fact (Nat.Prime q) := ⟨hp⟩
-  have hx1 : Rep P.x (eval P.x) := ⟨hP.ix, C17.Cong.refl _⟩
-  have hy1 : Rep P.y (eval P.y) := ⟨hP.iy, C17.Cong.refl _⟩
-  have hz1 : Rep P.z (eval P.z) := ⟨hP.iz, C17.Cong.refl _⟩
-  have hx2 : Rep Q.x (eval Q.x) := ⟨hQ.ix, C17.Cong.refl _⟩
-  have hy2 : Rep Q.y (eval Q.y) := ⟨hQ.iy, C17.Cong.refl _⟩
-  have hz2 : Rep Q.z (eval Q.z) := ⟨hQ.iz, C17.Cong.refl _⟩
-  have hA := C17.mul_rep hz1 hz2
-  have hB := C17.square_rep hA
-  have hC := C17.mul_rep hx1 hx2
-  have hD := C17.mul_rep hy1 hy2
-  have hE := C17.mul_rep (C17.mul_rep feD_rep hC) hD
-  have hF := C17.sub_rep hB hE
-  have hG := C17.add_rep hB hE
-  have hH := C17.mul_rep (C17.add_rep hx1 hy1) (C17.add_rep hx2 hy2)
-  have hX := C17.mul_rep (C17.mul_rep (C17.sub_rep (C17.sub_rep hH hC) hD) hA) hF
-  have hY := C17.mul_rep (C17.mul_rep (C17.sub_rep hD hC) hG) hA
-  have hZ := C17.mul_rep hF hG
-  -- field side
-  have c1 := onCurve_F ha
-  have c2 := onCurve_F hb
-  obtain ⟨dp, dm⟩ := edwards_complete ((d : ℤ) : F) (d_nonsquare hp) two_ne_zero_F c1 c2
-  have ex1 := (cong_iff _ _).mp hP.hx
-  have ey1 := (cong_iff _ _).mp hP.hy
-  have ex2 := (cong_iff _ _).mp hQ.hx
-  have ey2 := (cong_iff _ _).mp hQ.hy
-  have z1 := (not_cong_zero_iff _).mp hP.z_ne
-  have z2 := (not_cong_zero_iff _).mp hQ.z_ne
-  have hform := add_formula ((d : ℤ) : F) (a.x : F) (a.y : F) (b.x : F) (b.y : F)
-    (eval P.z : F) (eval Q.z : F) z1 z2 dp dm
-  dsimp only at hform
-  obtain ⟨fx, fy, fz⟩ := hform
-  have eX := (cong_iff _ _).mp hX.2
-  have eY := (cong_iff _ _).mp hY.2
-  have eZ := (cong_iff _ _).mp hZ.2
-  push_cast at ex1 ey1 ex2 ey2 eX eY eZ
-  rw [ex1, ey1, ex2, ey2] at eX eY eZ
-  refine ⟨hX.1, hY.1, hZ.1, ?_, ?_, ?_⟩
-  · rw [not_cong_zero_iff]
-    show ((eval (Model.Fe448.mul _ _) : ℤ) : F) ≠ 0
-    rw [eZ]; exact fz
-  · rw [cong_iff]; push_cast
-    show ((eval (Model.Fe448.mul _ _) : ℤ) : F) = _ * ((eval (Model.Fe448.mul _ _) : ℤ) : F)
-    rw [eX, eZ, add_x_F hp]; linear_combination fx
-  · rw [cong_iff]; push_cast
-    show ((eval (Model.Fe448.mul _ _) : ℤ) : F) = _ * ((eval (Model.Fe448.mul _ _) : ℤ) : F)
-    rw [eY, eZ, add_y_F hp]; linear_combination fy
+/-- the point operations of goat respect the group operations — this is where completeness of the
+    formulas is used: `add` is applied to arbitrary pairs (equal, opposite, identity) -/
+theorem respects (hp : Nat.Prime q) : Respects Model.Ed448Pt.ops (GRep E) where
+  zero := by
+    show PRep zeroPt (EdwardsGroup.val (0 : E.G))
+    have : EdwardsGroup.val (0 : E.G) = Spec.Edwards448.zero := E.zero_val
+    rw [this]; exact zeroPt_correct
+  add := by
+    intro p r x y hx hy
+    show PRep (Model.Ed448Pt.add p r) (EdwardsGroup.val (x + y))
+    have : EdwardsGroup.val (x + y) = Spec.Edwards448.add (EdwardsGroup.val x) (EdwardsGroup.val y) := E.add_val x y
+    rw [this]; exact add_correct hp hx hy (EdwardsGroup.on x) (EdwardsGroup.on y)
+  double := by
+    intro p x hx
+    show PRep (Model.Ed448Pt.double p) (EdwardsGroup.val (x + x))
+    have : EdwardsGroup.val (x + x) = Spec.Edwards448.add (EdwardsGroup.val x) (EdwardsGroup.val x) := E.add_val x x
+    rw [this]; exact double_correct hp hx (EdwardsGroup.on x)
+  neg := by
+    intro p x hx
+    show PRep (Model.Ed448Pt.negate p) (EdwardsGroup.val (-x))
+    have : EdwardsGroup.val (-x) = Spec.Edwards448.neg (EdwardsGroup.val x) := E.neg_val x
+    rw [this]; exact negate_correct hx
 
-/-- `Point.Double` returns a representative of `a + a` (textbook law), for every curve point
-    (the identity and the points of order 2 and 4 included) -/
-theorem double_correct (hp : Nat.Prime q) {P : Model.Ed448Pt.Point} {a : AffinePoint}
-    (hP : PRep P a) (ha : OnCurve a) :
-    PRep (Model.Ed448Pt.double P) (Spec.Edwards448.add a a) := by
-  have : Fact (Nat.Prime q) := ⟨hp⟩
-  have hx1 : Rep P.x (eval P.x) := ⟨hP.ix, C17.Cong.refl _⟩
-  have hy1 : Rep P.y (eval P.y) := ⟨hP.iy, C17.Cong.refl _⟩
-  have hz1 : Rep P.z (eval P.z) := ⟨hP.iz, C17.Cong.refl _⟩
-  have hB := C17.square_rep (C17.add_rep hx1 hy1)
-  have hC := C17.square_rep hx1
-  have hD := C17.square_rep hy1
-  have hE := C17.add_rep hC hD
-  have hH := C17.square_rep hz1
-  have hJ := C17.sub_rep hE (C17.add_rep hH hH)
-  have hX := C17.mul_rep (C17.sub_rep hB hE) hJ
-  have hY := C17.mul_rep hE (C17.sub_rep hC hD)
-  have hZ := C17.mul_rep hE hJ
-  have c1 := onCurve_F ha
-  obtain ⟨dp, dm⟩ := edwards_complete ((d : ℤ) : F) (d_nonsquare hp) two_ne_zero_F c1 c1
-  have ex1 := (cong_iff _ _).mp hP.hx
-  have ey1 := (cong_iff _ _).mp hP.hy
-  have z1 := (not_cong_zero_iff _).mp hP.z_ne
-  have hform := double_formula ((d : ℤ) : F) (a.x : F) (a.y : F) (eval P.z : F) z1 c1 dp dm
-  dsimp only at hform
-  obtain ⟨fx, fy, fz⟩ := hform
-  have eX := (cong_iff _ _).mp hX.2
-  have eY := (cong_iff _ _).mp hY.2
-  have eZ := (cong_iff _ _).mp hZ.2
-  push_cast at ex1 ey1 eX eY eZ
-  rw [ex1, ey1] at eX eY eZ
-  refine ⟨hX.1, hY.1, hZ.1, ?_, ?_, ?_⟩
-  · rw [not_cong_zero_iff]
-    show ((eval (Model.Fe448.mul _ _) : ℤ) : F) ≠ 0
-    rw [eZ]; exact fz
-  · rw [cong_iff]; push_cast
-    show ((eval (Model.Fe448.mul _ _) : ℤ) : F) = _ * ((eval (Model.Fe448.mul _ _) : ℤ) : F)
-    rw [eX, eZ, add_x_F hp]; linear_combination fx
-  · rw [cong_iff]; push_cast
-    show ((eval (Model.Fe448.mul _ _) : ℤ) : F) = _ * ((eval (Model.Fe448.mul _ _) : ℤ) : F)
-    rw [eY, eZ, add_y_F hp]; linear_combination fy
+theorem identity_grep (hp : Nat.Prime q) : GRep E (newIdentity ()) (0 : E.G) := by
+  rw [newIdentity_eq]
+  unfold GRep
+  have : EdwardsGroup.val (0 : E.G) = Spec.Edwards448.zero := E.zero_val
+  rw [this]; exact identity_correct hp
 
-/-- negation of a curve point is a curve point -/
-theorem neg_onCurve {a : AffinePoint} (ha : OnCurve a) : OnCurve (Spec.Edwards448.neg a) := by
-  obtain ⟨⟨hx0, hx1⟩, hy, hc⟩ := ha
-  refine ⟨⟨Int.emod_nonneg _ (by decide), Int.emod_lt_of_pos _ (by decide)⟩, hy, ?_⟩
-  rw [emod_eq_iff] at hc ⊢
-  unfold Spec.Edwards448.neg
-  push_cast at hc ⊢
-  rw [cast_emod_p]
-  push_cast
-  linear_combination hc
+/-- the base point as a group element -/
+def EdwardsGroup.B (E : EdwardsGroup) : E.G := E.mk' Spec.Edwards448.B B_onCurve
 
-/-- `Point.Negate` -/
-theorem negate_correct {P : Model.Ed448Pt.Point} {a : AffinePoint} (hP : PRep P a) :
-    PRep (Model.Ed448Pt.negate P) (Spec.Edwards448.neg a) := by
-  have hx1 : Rep P.x (eval P.x) := ⟨hP.ix, C17.Cong.refl _⟩
-  have hN := C17.negate_rep hx1
-  refine ⟨hN.1, hP.iy, hP.iz, hP.z_ne, ?_, hP.hy⟩
-  have ex1 := (cong_iff _ _).mp hP.hx
-  have eN := (cong_iff _ _).mp hN.2
-  show Cong (eval (Model.Fe448.negate P.x)) ((Spec.Edwards448.neg a).x * eval P.z)
-  rw [cong_iff, eN]
-  unfold Spec.Edwards448.neg
-  push_cast at ex1 ⊢
-  rw [cast_emod_p, ex1]; push_cast; ring
+theorem generator_grep (hp : Nat.Prime q) : GRep E (newGenerator ()) E.B := by
+  rw [newGenerator_eq]; exact generator_correct hp
 
-/-- `Point.Sub` = `Add(p, Negate(q))` represents `a + (−b)` -/
-theorem sub_correct (hp : Nat.Prime q) {P Q : Model.Ed448Pt.Point} {a b : AffinePoint}
-    (hP : PRep P a) (hQ : PRep Q b) (ha : OnCurve a) (hb : OnCurve b) :
-    PRep (Model.Ed448Pt.sub P Q) (Spec.Edwards448.sub a b) :=
-  add_correct hp hP (negate_correct hQ) ha (neg_onCurve hb)
+/-! ## the three scalar multiplications (under `EdwardsGroup`) -/
 
-/-- the identity of `Zero()` represents (0, 1) -/
-theorem zeroPt_correct : PRep zeroPt Spec.Edwards448.zero := by
-  refine ⟨zero_rep.1, one_rep.1, one_rep.1, ?_, ?_, ?_⟩ <;> unfold Cong <;> decide +kernel
+/-- `ScalarMult(x, q)` = x·Q for every 56-octet scalar with bit 447 clear (goat's scalars are
+    reduced, < l < 2^446) and every curve point Q; no panic. -/
+theorem scalarMult_correct (hp : Nat.Prime q) {Q : Model.Ed448Pt.Point} {g : E.G} (hQ : GRep E Q g)
+    (s : Bytes) (hlen : s.length = 56) (htop : (s.getD 55 0).toNat < 0x80) :
+    ∃ R, Model.Ed448Pt.scalarMult s Q = .ok R ∧ GRep E R ((Bytes.decodeLE s : ℤ) • g) := by
+  have R := respects E hp
+  obtain ⟨ds, e, hl, hv⟩ := Grp.radix16_sum s hlen htop
+  have hd := Grp.radix16_digits_bounded s ds hlen e
+  unfold Model.Ed448Pt.scalarMult guard1
+  rw [if_pos (initialized_of_prep hp hQ (EdwardsGroup.on g)), e]
+  refine ⟨_, rfl, ?_⟩
+  rw [← hv]
+  unfold scalarMultDigits
+  have hsel : ∀ d, -8 ≤ d → d ≤ 8 → GRep E (lookupSelect8 Model.Ed448Pt.ops (lookupInit8 Model.Ed448Pt.ops Q) d) (d • g) :=
+    fun d h1 h2 => lookupSelect8_rep R (lookupInit8_rep R hQ) d h1 h2
+  have hne : ds ≠ [] := by intro h; rw [h] at hl; cases hl
+  cases hrev : ds.reverse with
+  | nil => exact absurd (List.reverse_eq_nil_iff.1 hrev) hne
+  | cons top rest =>
+    have hdig : ds = rest.reverse ++ [top] := by
+      have := congrArg List.reverse hrev
+      simpa using this
+    have htop' := hd top (by rw [hdig]; simp)
+    have hrest : ∀ d ∈ rest, -8 ≤ d ∧ d ≤ 8 := fun d h => hd d (by rw [hdig]; simp [h])
+    have h0 := R.add (identity_grep E hp) (hsel top htop'.1 htop'.2)
+    have := horner_rep R hsel rest _ _ h0 hrest
+    refine R.cast this ?_
+    rw [hdig, digitsValue_append, List.length_reverse]
+    simp only [digitsValue]
+    module
 
-theorem zero_onCurve : OnCurve Spec.Edwards448.zero := by decide +kernel
+/-- `ScalarBaseMult(x)` = x·B -/
+theorem scalarBaseMult_correct (hp : Nat.Prime q) (s : Bytes) (hlen : s.length = 56)
+    (htop : (s.getD 55 0).toNat < 0x80) :
+    ∃ R, Model.Ed448Pt.scalarBaseMult s = .ok R ∧ GRep E R ((Bytes.decodeLE s : ℤ) • E.B) := by
+  have R := respects E hp
+  obtain ⟨ds, e, hl, hv⟩ := Grp.radix16_sum s hlen htop
+  have hd := Grp.radix16_digits_bounded s ds hlen e
+  unfold Model.Ed448Pt.scalarBaseMult
+  rw [e]
+  refine ⟨_, rfl, ?_⟩
+  rw [← hv]
+  unfold scalarBaseMultDigits
+  rw [basepointTblT_get]
+  have hd' : ∀ i, -8 ≤ ds.getD i 0 ∧ ds.getD i 0 ≤ 8 := by
+    intro i
+    by_cases hi : i < ds.length
+    · rw [List.getD_eq_getElem?_getD, List.getElem?_eq_getElem hi]; exact hd _ (List.getElem_mem hi)
+    · rw [List.getD_eq_getElem?_getD, List.getElem?_eq_none (by omega)]; simp
+  have hsel : ∀ t d, t < 56 → -8 ≤ d → d ≤ 8 →
+      GRep E (basepointSel Model.Ed448Pt.ops (basepointTable Model.Ed448Pt.ops 56 (newGenerator ())) t d) ((d * 256 ^ t) • E.B) :=
+    fun t d ht h1 h2 => basepointSel_rep R (generator_grep E hp) t d ht h1 h2
+  have h1 := baseLoop_rep R ds 1 (by omega) 56 hsel hd' 56 (by omega) _ _ (identity_grep E hp)
+  have h2 := R.addSelf4 h1
+  have h3 := baseLoop_rep R ds 0 (by omega) 56 hsel hd' 56 (by omega) _ _ h2
+  refine R.cast h3 ?_
+  rw [digitsValue_even_odd 56 ds (by omega)]
+  module
 
-/-- a represented curve point is never the "uninitialized" all-zero pattern:
-    `checkInitialized` cannot panic on it -/
-theorem initialized_of_prep (hp : Nat.Prime q) {P : Model.Ed448Pt.Point} {a : AffinePoint}
-    (hP : PRep P a) (ha : OnCurve a) : initialized P = true := by
-  have : Fact (Nat.Prime q) := ⟨hp⟩
-  unfold initialized
-  cases hb : (P.x == Model.Fe448Ext.zero && P.y == Model.Fe448Ext.zero) with
-  | false => rfl
-  | true =>
-  exfalso
-  simp only [Bool.and_eq_true, beq_iff_eq] at hb
-  obtain ⟨e1, e2⟩ := hb
-  have ex1 := (cong_iff _ _).mp hP.hx
-  have ey1 := (cong_iff _ _).mp hP.hy
-  have z1 := (not_cong_zero_iff _).mp hP.z_ne
-  have c1 := onCurve_F ha
-  rw [e1] at ex1; rw [e2] at ey1
-  have h0 : eval Model.Fe448Ext.zero = 0 := by decide
-  rw [h0] at ex1 ey1
-  push_cast at ex1 ey1
-  have hx : (a.x : F) = 0 := by
-    rcases mul_eq_zero.mp ex1.symm with h | h
-    · exact h
-    · exact absurd h z1
-  have hy : (a.y : F) = 0 := by
-    rcases mul_eq_zero.mp ey1.symm with h | h
-    · exact h
-    · exact absurd h z1
-  rw [hx, hy] at c1
-  simp at c1
+/-- `VarTimeDoubleScalarBaseMult(a, A, b)` = a·A + b·B for scalars below 2^447; no panic
+    (in particular no table index out of range) -/
+theorem doubleScalarMult_correct (hp : Nat.Prime q) {A : Model.Ed448Pt.Point} {g : E.G} (hA : GRep E A g)
+    (a b : Bytes) (hla : a.length = 56) (hlb : b.length = 56)
+    (hVa : Bytes.decodeLE a < 2 ^ 447) (hVb : Bytes.decodeLE b < 2 ^ 447) :
+    ∃ R, Model.Ed448Pt.doubleScalarBaseMult a A b = .ok R ∧
+      GRep E R ((Bytes.decodeLE a : ℤ) • g + (Bytes.decodeLE b : ℤ) • E.B) := by
+  have R := respects E hp
+  obtain ⟨aNAF, bNAF, r, ea, eb, er, hr⟩ :=
+    Grp.ed448DoubleScalarMult_bytes_rep R hA (generator_grep E hp) a b hla hlb hVa hVb
+  unfold Model.Ed448Pt.doubleScalarBaseMult guard1
+  rw [if_pos (initialized_of_prep hp hA (EdwardsGroup.on g)), ea, eb, basepointNAFTblT_get]
+  exact ⟨r, er, hr⟩
 
 end C16Pt
